@@ -98,7 +98,7 @@ class PVals(_Generic):
             # existence is an obligation (IndexError otherwise); then r is the lowest masked position
             wit = cx.fresh("some_row", "Int")
             cx.oblige("safe.selected-row-exists", z3.Exists([j], z3.And(j >= 0, j < n, self.mask.f(j))), kind="safe", detail=".values[0] of an empty selection raises IndexError")
-            cx.assume(z3.And(r >= 0, r < n, self.mask.f(r), z3.ForAll([j], z3.Implies(z3.And(j >= 0, j < r), z3.Not(self.mask.f(j))))))
+            cx.axiom("pandas: df.loc[mask, cols].values[0] is the first (lowest-position) masked row", z3.And(r >= 0, r < n, self.mask.f(r), z3.ForAll([j], z3.Implies(z3.And(j >= 0, j < r), z3.Not(self.mask.f(j))))))
             self.mask._first_row = r
         return r
 
@@ -120,7 +120,7 @@ class PVals(_Generic):
         cx.oblige("safe.max-of-nonempty", z3.Exists([j], z3.And(j >= 0, j < n, m(j))), kind="safe", detail="np.max of an empty selection raises ValueError")
         M = cx.fresh("max_val", "Real")
         w = cx.fresh("max_row", "Int")
-        cx.assume(z3.And(w >= 0, w < n, m(w), f(w) == M, z3.ForAll([j], z3.Implies(z3.And(j >= 0, j < n, m(j)), f(j) <= M))))
+        cx.axiom("numpy: np.max over the masked rows is attained by one of them and dominates all of them", z3.And(w >= 0, w < n, m(w), f(w) == M, z3.ForAll([j], z3.Implies(z3.And(j >= 0, j < n, m(j)), f(j) <= M))))
         return SV(M)
 
 
